@@ -46,10 +46,26 @@ type concCase struct {
 }
 
 var concKinds = []string{"canon-own", "canon-shared", "canon-alloc", "iter", "dawg-build", "dawg-lookup", "dawg-search", "observe",
-	"invariants", "codecs", "cliques-chan", "comb", "sortints", "random", "generators", "tsp", "colouring"}
+	"invariants", "codecs", "cliques-chan", "comb", "sortints", "random", "generators", "tsp", "colouring", "dawg-gob", "search-saveload", "views", "canon-big", "canon-big"}
 
 func genConcCase(t *rapid.T) concCase {
-	c := concCase{Shared: specOf(genAnyGraph(t, 8)), Words: genWordSet(t, []byte{'a', 'b', 'c'}, 12, 4),
+	words := genWordSet(t, []byte{'a', 'b', 'c'}, 12, 4)
+	if rapid.Bool().Draw(t, "widedawg") {
+		// a shared Dawg whose root and second level have 20+ links (any per-node lazily built index is then in play)
+		set := map[word]bool{}
+		for _, w := range words {
+			set[w] = true
+		}
+		for ch := byte('a'); ch <= 'x'; ch++ {
+			set[word([]byte{ch})] = true
+			set[word([]byte{'m', ch})] = true
+			if rapid.Bool().Draw(t, "deeper") {
+				set[word([]byte{ch, 'q', ch})] = true
+			}
+		}
+		words = sortedWords(set)
+	}
+	c := concCase{Shared: specOf(genAnyGraph(t, 8)), Words: words,
 		SetA: genSet(t, 8), SetB: genSet(t, 8),
 		Goroutines: rapid.SampledFrom([]int{2, 3, 4, 8, 16}).Draw(t, "goroutines"),
 		Procs:      rapid.SampledFrom([]int{1, 2, 4, 16}).Draw(t, "procs"),
@@ -66,6 +82,25 @@ func genConcCase(t *rapid.T) concCase {
 	for i := 0; i < k; i++ {
 		tk := cTask{Kind: rapid.SampledFrom(concKinds).Draw(t, "kind"), A: rapid.IntRange(0, 11).Draw(t, "a"), B: rapid.IntRange(0, 5).Draw(t, "b")}
 		switch tk.Kind {
+		case "canon-big":
+			// 24..44 vertices with large cells: a few big twin classes plus some irregular edges
+			k := rapid.IntRange(2, 3).Draw(t, "bigparts")
+			parts := make([]int, k)
+			for i := range parts {
+				parts[i] = rapid.IntRange(9, 15).Draw(t, "bigpart")
+			}
+			g := mCompleteMultipartite(parts)
+			for e := rapid.IntRange(0, 4).Draw(t, "bigextra"); e > 0; e-- {
+				u, v := rapid.IntRange(0, g.N-1).Draw(t, "bu"), rapid.IntRange(0, g.N-1).Draw(t, "bv")
+				if u != v {
+					if g.Has(u, v) {
+						g.Del(u, v)
+					} else {
+						g.Add(u, v)
+					}
+				}
+			}
+			tk.G = specOf(g)
 		case "canon-own", "canon-alloc":
 			tk.G = specOf(genAnyGraph(t, 9))
 		case "dawg-search":
@@ -113,6 +148,10 @@ func runConcTask(sh *concShared, tk cTask) string {
 			sb.WriteString(graphString(it.Value()))
 			sb.WriteByte('\n')
 		}
+	case "canon-big":
+		g := tk.G.Model()
+		p, o, gens := graph.CanonicalIsomorphFull(sparseOf(g), nil)
+		fmt.Fprint(&sb, p, orbitSets(o), len(gens))
 	case "canon-own":
 		g := tk.G.Model()
 		p, o, gens := graph.CanonicalIsomorphFull(denseOf(g), nil)
@@ -186,6 +225,10 @@ func runConcTask(sh *concShared, tk cTask) string {
 		d, _ := b.Finish()
 		fmt.Fprint(&sb, d.NumberOfWords(), dumpUpToIdentity(d.VerifNodes()))
 	case "dawg-lookup":
+		for ch := 0; ch < 256; ch += 5 {
+			i, ok := sh.dg.Lookup([]byte{byte(ch)})
+			fmt.Fprint(&sb, i, ok, ",")
+		}
 		for _, w := range sh.words {
 			i, ok := sh.dg.Lookup([]byte(w))
 			fmt.Fprint(&sb, i, ok, ";")
@@ -204,6 +247,47 @@ func runConcTask(sh *concShared, tk cTask) string {
 		fmt.Fprintf(&sb, "%q %v", w, ids)
 		w, ids = sh.dg.Search()
 		fmt.Fprintf(&sb, "%q %v", w, ids)
+	case "dawg-gob":
+		enc, err := sh.dg.GobEncode() // read-only on the shared Dawg
+		d2 := new(dawg.Dawg)
+		err2 := d2.GobDecode(enc)
+		w, ids := d2.Search()
+		fmt.Fprintf(&sb, "%x %v %v %q %v", enc, err, err2, w, ids)
+	case "search-saveload":
+		// an own pruned search, saved in the middle and resumed by a loaded copy
+		tri := func(g *graph.DenseGraph) bool { return graph.CliqueNumber(g) >= 3 }
+		never := func(g *graph.DenseGraph) bool { return false }
+		it := search.WithPruning(5, tk.A%2, 2, never, tri)
+		for i := 0; i < 3+tk.B && it.Next(); i++ {
+			sb.WriteString(graphString(it.Value()))
+		}
+		var buf bytes.Buffer
+		it.Save(&buf)
+		ld := search.Load(&buf, never, tri)
+		for ld.Next() {
+			sb.WriteString(graphString(ld.Value()))
+		}
+		for it.Next() {
+			sb.WriteString(graphString(it.Value()))
+		}
+	case "views":
+		// views over the shared graphs are created and read by each goroutine
+		sub := make([]int, 0, sh.model.N)
+		for v := tk.A % 2; v < sh.model.N; v += 2 {
+			sub = append(sub, v)
+		}
+		for _, base := range []graph.Graph{sh.dense, sh.sparse} {
+			iv := graph.InducedSubgraph(base, sub)
+			cv := graph.Complement(base)
+			fmt.Fprint(&sb, iv.N(), iv.M(), iv.Degrees(), cv.M(), cv.Degrees())
+			for v := 0; v < iv.N(); v++ {
+				fmt.Fprint(&sb, iv.Neighbours(v))
+			}
+			for v := 0; v < cv.N(); v++ {
+				fmt.Fprint(&sb, cv.Neighbours(v))
+			}
+			fmt.Fprint(&sb, graph.Graph6Encode(graph.ComplementDense(iv)), graph.CliqueNumber(cv))
+		}
 	case "observe":
 		_, gr := pick()
 		fmt.Fprint(&sb, gr.N(), gr.M(), gr.Degrees())
@@ -407,7 +491,7 @@ func checkConcCase(c concCase, rec *Rec) error {
 
 func init() {
 	s := RegisterRapid("C19_concurrent_workloads",
-		"rapid (run from the -race binary): a workload of 2..~20 tasks drawn from 18 kinds - all m shards of search.All(n<=6), CanonicalIsomorphFull on own graphs and on ONE shared read-only graph held as dense/sparse/three views, CanonicalIsomorphAllocated with own storage, eight itertools iterators, own dawg Builders, Lookup and Search (own searchers) on ONE shared Dawg, observers / clique / colouring / distance / block / counting / planarity / codec functions on the shared graph, AllMaximalCliques with own channels, comb and sortints functions on shared read-only slices, RandomGraph/RandomTree, the named generators, tsp.LIB to own buffers; half of the tasks are duplicated so that two goroutines run identical code on the shared values. Each task's result is computed alone (before the concurrent rounds, or - in half of the cases - after the first one, so that lazily filled caches are still cold when the goroutines start), and all tasks run on 2..16 goroutines behind a start barrier with GOMAXPROCS in {1,2,4,16}, 1..3 rounds. Violation: any race-detector report (GORACE=halt_on_error), any panic, any result that differs from the sequential one, or shards that no longer partition the classes. Schedules are sampled, not enumerated. Non-trivial: >= 2 tasks on >= 2 goroutines.",
+		"rapid (run from the -race binary): a workload of 3..~25 tasks drawn from 21 kinds - all m shards of search.All(n<=6), CanonicalIsomorphFull on own graphs (incl. 24..44-vertex graphs with large cells) and on ONE shared read-only graph held as dense/sparse/three views, CanonicalIsomorphAllocated with own storage, eight itertools iterators, own dawg Builders, Lookup and Search (own searchers) on ONE shared Dawg (half of the time with 24 links at the root and at a second-level node), observers / clique / colouring / distance / block / counting / planarity / codec functions on the shared graph, AllMaximalCliques with own channels, comb and sortints functions on shared read-only slices, RandomGraph/RandomTree, the named generators, tsp.LIB to own buffers, GobEncode of the shared Dawg + GobDecode into an own one, an own pruned search that is saved and resumed, induced-subgraph and complement views created over the shared graphs; half of the tasks are duplicated so that two goroutines run identical code on the shared values. Each task's result is computed alone (before the concurrent rounds, or - in half of the cases - after the first one, so that lazily filled caches are still cold when the goroutines start), and all tasks run on 2..16 goroutines behind a start barrier with GOMAXPROCS in {1,2,4,16}, 1..3 rounds. Violation: any race-detector report (GORACE=halt_on_error), any panic, any result that differs from the sequential one, or shards that no longer partition the classes. Schedules are sampled, not enumerated. Non-trivial: >= 2 tasks on >= 2 goroutines.",
 		Budget{Checks: 150, Shards: 3}, Budget{Checks: 1500, Shards: 16}, genConcCase, checkConcCase)
 	s.Race = true
 }
